@@ -66,6 +66,11 @@ package text
 //@   flags nosafety
 //@   ensures one_fragment_at_the_current_position: len(e.fragments) == old(len(e.fragments)) + 1 && (forall k int :: {e.fragments[k]} 0 <= k && k < old(len(e.fragments)) ==> e.fragments[k] == old(e.fragments)[k])
 //@   ensures line_matrix_and_ctm_untouched: e.gs.Text.TextLineMatrix == old(e.gs.Text.TextLineMatrix) && e.gs.CTM == old(e.gs.CTM) && e.gs.Text.Leading == old(e.gs.Text.Leading)
+// the reported size combines the font size, the text matrix (effective size) and the VERTICAL scale of the CTM: the
+// length of the image (c, d) of the unit vector (0, 1); a degenerate CTM counts as scale 1
+//@   let vs = math.Sqrt(old(e.gs.CTM)[2] * old(e.gs.CTM)[2] + old(e.gs.CTM)[3] * old(e.gs.CTM)[3])
+//@   ensures reported_size_is_effective_size_times_vertical_ctm_scale: e.fragments[old(len(e.fragments))].FontSize == old(e.gs.GetEffectiveFontSize()) * (vs == 0.0 ? 1.0 : vs) && e.fragments[old(len(e.fragments))].Height == e.fragments[old(len(e.fragments))].FontSize
+//@   ensures reported_at_the_text_position: e.fragments[old(len(e.fragments))].X == old(e.gs.GetTextPosition$0()) && e.fragments[old(len(e.fragments))].Y == old(e.gs.GetTextPosition$1())
 
 // TJ: strings are shown in array order; numeric adjustments move the text matrix only
 //@ func (*Extractor) showTextArray
